@@ -7,6 +7,7 @@ import (
 	"errors"
 	"sync"
 	"time"
+	"verifharness/internal/netx"
 
 	"github.com/libp2p/go-libp2p"
 	pubsub "github.com/libp2p/go-libp2p-pubsub"
@@ -34,7 +35,7 @@ func Get() (*Env, error) {
 		var ctx context.Context
 		ctx, e.cancel = context.WithCancel(context.Background())
 		mk := func() (host.Host, *pubsub.Topic, error) {
-			h, err := libp2p.New(libp2p.ListenAddrStrings("/ip4/127.0.0.1/tcp/0"))
+			h, err := netx.Retry(func() (host.Host, error) { return libp2p.New(libp2p.ListenAddrStrings("/ip4/127.0.0.1/tcp/0")) })
 			if err != nil {
 				return nil, nil, err
 			}
